@@ -24,12 +24,9 @@ Recorded defects of the code w.r.t. the property text (the model has them too; `
       (outputs cfg₁ h).map contentView = (outputs cfg₂ h).map contentView
   ```
 
-Repaired in /repo (b4d0d5f): a module file is no longer re-used for another source file – `_compile_from_file`
-compares `module._template_filename`; the model follows (`Generated.Lookup.moduleChecksSourceName`), the former
-`first_directory_wins_counterexample` / `fresh_counterexample` are gone and their witnesses are now regression
-theorems (`…_former_witness`).  What remains with a module directory, besides the defect above, is the property's
-own one-second allowance: a module file of the *same* source stamped in the very second of the source's mtime is
-re-used (or, if its import raises, raises again: `failed_import_same_second_witness`).
+Not a defect but the property's own one-second allowance, applied to the module file: a module file of the *same*
+source stamped in the very second of the source's mtime is re-used (`fresh_same_second_put_template_witness`) or, if
+its import raises, raises again (`failed_import_same_second_witness`).
 
 Contents come in three kinds: good, `broken` (Mako's lexer/parser/codegen raise; nothing is written), `late` (Mako
 compiles, the generated module raises when imported; with a module directory the module file is written and stays).
